@@ -1,8 +1,7 @@
 (* C01: the model of pyrtl.Simulation refines the reference semantics. *)
 From PyRTL Require Import Sim.SimModel Sim.OpLemmas.
+From PyRTL Require Export Netlist.WFDefs.
 From Coq Require Import ZifyBool.
-
-Definition mem_in (w : wid) (l : list wid) : bool := existsb (Z.eqb w) l.
 
 Lemma mem_in_In w l : mem_in w l = true <-> In w l.
 Proof.
@@ -23,65 +22,13 @@ Section Correct.
 Variable nl : netlist.
 Variable dflt : Z.
 
-Definition is_base (w : wid) : bool :=
-  match find_wire (wires nl) w with
-  | Some x => match wkind x with
-              | KConst _ | KInput | KReg _ => true
-              | _ => false
-              end
-  | None => false
-  end.
-
-Definition arity_ok (o : op) (k : nat) : bool :=
-  match o with
-  | OpW | OpNot | OpSelect _ | OpReg | OpMemRd _ => Nat.eqb k 1
-  | OpMux | OpMemWr _ => Nat.eqb k 3
-  | OpConcat => true
-  | _ => Nat.eqb k 2
-  end.
-
-Definition op_ok (n : net) : bool :=
-  let wd := width_of nl (ndest n) in
-  match nop n with
-  | OpNot => wd <=? width_of nl (arg n 0)
-  | OpNand => wd <=? Z.max (width_of nl (arg n 0)) (width_of nl (arg n 1))
-  | OpSelect idx => forallb (fun i => 0 <=? i) idx
-  | _ => true
-  end.
-
-Definition net_ok (rdy : list wid) (n : net) : bool :=
-  if is_comb (nop n) then
-    forallb (fun a => mem_in a rdy) (nargs n) && negb (mem_in (ndest n) rdy)
-    && arity_ok (nop n) (length (nargs n)) && op_ok n
-  else true.
-
-Definition rdy_next (rdy : list wid) (n : net) : list wid :=
-  if is_comb (nop n) then ndest n :: rdy else rdy.
-
-Fixpoint nets_ok (rdy : list wid) (ns : list net) : bool :=
-  match ns with
-  | [] => true
-  | n :: r => net_ok rdy n && nets_ok (rdy_next rdy n) r
-  end.
-
-Definition rdy0 : list wid := filter is_base (map wname (wires nl)).
-Definition rdy_final : list wid := fold_left rdy_next (nets nl) rdy0.
-
-(* Boolean well-formedness: every hypothesis of the refinement theorem that
-   concerns the netlist alone.  It is evaluated on every design the
-   correspondence check dumps from PyRTL, so the theorem's premises are known
-   to hold of the designs the implementation was run on. *)
-Definition wfb : bool :=
-  forallb (fun x => 0 <=? wwidth x) (wires nl)
-  && forallb (fun x => match wkind x with
-                       | KConst c => inrangeb c (wwidth x)
-                       | _ => true
-                       end) (wires nl)
-  && nets_ok rdy0 (nets nl)
-  && forallb (fun n => if is_comb (nop n) then true
-                       else forallb (fun a => mem_in a rdy_final) (nargs n)
-                            && arity_ok (nop n) (length (nargs n))) (nets nl)
-  && forallb (fun x => mem_in (wname x) rdy_final) (wires nl).
+Local Notation is_base := (is_base nl).
+Local Notation op_ok := (op_ok nl).
+Local Notation net_ok := (net_ok nl).
+Local Notation nets_ok := (nets_ok nl).
+Local Notation rdy0 := (rdy0 nl).
+Local Notation rdy_final := (rdy_final nl).
+Local Notation wfb := (wfb nl).
 
 Definition legal_ins (ins : wid -> Z) : Prop :=
   forall w, is_input nl w = true -> inrange (ins w) (width_of nl w).
